@@ -345,6 +345,7 @@ def random_cases(sh, rng, n_patterns, paths_per):
 def end_to_end(sh, rng, n):
     from clastic import Application, Route, Response
     from ..probe import request
+    from .. import probe
     vocab = element_vocab()
     got = {}
     for _ in range(n):
@@ -370,7 +371,19 @@ def end_to_end(sh, rng, n):
                 continue   # a WSGI server always sends a rooted path; werkzeug folds leading slashes
             got.clear()
             ex = request(app, 'GET', path)
-            expect = app.routes[0].match_path(path)
+            try:
+                expect = app.routes[0].match_path(path)
+            except Exception as e:
+                # "a segment that fails conversion makes the route not match instead of raising"
+                sh.violation(classify('match-raises', elements, mode, path),
+                             'match_path(%r) on %r [%s] raised %s: %s' % (_short(path), pattern, mode, type(e).__name__, e),
+                             {'e2e': pattern, 'mode': mode, 'path': path})
+                continue
+            if ex.exc is not None:
+                sh.violation(classify('match-raises', elements, mode, path),
+                             'GET %r on %r [%s]: %s escaped the application' % (_short(path), pattern, mode, probe.safe_repr(ex.exc)[:200]),
+                             {'e2e': pattern, 'mode': mode, 'path': path})
+                continue
             sh.case({'e2e': pattern, 'mode': mode, 'path': path[:200]}, nontrivial=bool(names), klass='end-to-end')
             if ex.status == 200 and 'v' in got:
                 sh.hit('e2e:params-compared')
@@ -399,7 +412,13 @@ def end_to_end(sh, rng, n):
                     got.clear()
                     ex2 = request(app, 'GET', path2)
                     canon = '/' + '/'.join(x for x in path.split('/') if x) + ('/' if branch else '')
-                    want = app.routes[0].match_path(canon)
+                    try:
+                        want = app.routes[0].match_path(canon)
+                    except Exception as e:
+                        sh.violation(classify('match-raises', elements, mode, canon),
+                                     'match_path(%r) on %r [%s] raised %s: %s' % (_short(canon), pattern, mode, type(e).__name__, e),
+                                     {'e2e': pattern, 'mode': mode, 'path': canon})
+                        continue
                     if ex2.status == 200 and 'v' in got:
                         sh.hit('e2e:redirect-followed')
                         if want is None or got['v'] != want or um.check_values(elements, branch, mode, canon, got['v']):
